@@ -101,6 +101,11 @@ CHECKS = {
          "HTTP request sequences are delivered lock-step and pipelined with every single cut point (short streams) or sampled cuts; backend replies are written in seeded chunks; 1..3 concurrent clients. The backends answer with a transformation (xor) of what they received so a proxy echoing locally is told apart.",
          "Allowed intermediary differences (header order across names, re-framing, name case) are not violations. connect() targets are observed through the decoy and the backends' own accept counts, not through a syscall tracer.",
          "DESIGN.md §5 C15"),
+ "C18": ("fault_enumeration",
+         "runtime monitoring of the real binary across process lifetimes: identity read from outside (token in event lines, SSH host key via handshake callback, leaf certificates via FTP AUTH TLS / SMTP STARTTLS / LDAP StartTLS, agent key via printed key and a Noise_NK handshake with the remembered key) over restart histories, every synthesized on-disk state of the token file (absent, empty, all 19 proper prefixes), SIGKILL at seeded instants of a first start and (thorough) at the k-th file-system syscall injected with strace",
+         "Each scenario owns a data directory and free loopback ports; after any interrupted start, two more starts must come up with a well-formed token and the same identity tuple.",
+         "Crash = process kill; power loss is not modelled. A start is retried twice before 'does not come up' is reported.",
+         "DESIGN.md §5 C18"),
 }
 
 NOT_YET = {
